@@ -19,6 +19,9 @@
 (*   res, efile, eline             result class of the planted program and *)
 (*                                 file / span.line_start of its FIRST     *)
 (*                                 error ("" / 0 when there is none)       *)
+(*   marker2, efile2, eline2       offset of the second offending element  *)
+(*                                 (0 unless the kind is in TwoKinds) and  *)
+(*                                 file / line of the SECOND error         *)
 (* Record k is validated independently (Init ranges over all k).  A record *)
 (* that contradicts the universe or whose marker does not point at the     *)
 (* construct SyltDiag spells is a tool error (Assert), never a verdict.    *)
@@ -51,8 +54,8 @@ WellFormed(j) ==
               <<"record outside the dimensions", j, c>>)
     /\ Assert(Applicable(c), <<"record for an inapplicable case", j, c>>)
     /\ Assert(r.path = PathOf(c.file), <<"path does not belong to the file class", j, r.path>>)
-    /\ Assert(MarkerOK(c, r.text, r.marker, r.fstart),
-              <<"marker does not point at the offending element of the planted form", j, c, r.marker, r.fstart>>)
+    /\ Assert(MarkerOK(c, r.text, r.marker, r.fstart, r.marker2),
+              <<"marker does not point at the offending element of the planted form", j, c, r.marker, r.fstart, r.marker2>>)
     /\ Assert(DefSpellings(c.kind) # {} =>
                  (r.marker \in Sites(r.text, c.kind) /\ Cardinality(Sites(r.text, c.kind)) = 2),
               <<"a duplicate needs exactly two definition sites", j, c>>)
@@ -64,6 +67,7 @@ WellFormed(j) ==
           /\ Assert(N = Cardinality(ApplicableIdx), <<"cross universe incomplete", N, Cardinality(ApplicableIdx)>>)
           /\ Assert(j > 1 => r.idx > Rec[j - 1].idx, <<"records not in index order", j>>)
     /\ Assert((r.res = "err") = (r.eline > 0) /\ r.res \in {"ok", "err", "panic"}, <<"malformed observation", j>>)
+    /\ Assert(r.eline2 >= 0 /\ (r.eline2 > 0 => r.eline > 0), <<"malformed second observation", j>>)
 
 \* (TLC computes initial states in one thread: the costly well-formedness checks and the expectation are a step)
 TraceInit ==
@@ -82,7 +86,12 @@ TraceCheck ==
     /\ st' = "run"
     /\ UNCHANGED <<text, toks, k>>
 
-Obs == Verdict(C, ln, Rec[k].res, Rec[k].efile, Rec[k].eline)
+\* the first error against the (first) offending element; for a form with two offending elements then the second
+\* error against the second element
+Obs1 == Verdict(C, ln, Rec[k].res, Rec[k].efile, Rec[k].eline)
+Obs == IF C.kind \in TwoKinds /\ Obs1 = "conforms"
+       THEN Verdict2(C, LineOf(text, Rec[k].marker2), Rec[k].efile2, Rec[k].eline2)
+       ELSE Obs1
 
 TraceBaseRejected ==
     /\ st = "run" /\ ~Rec[k].base_ok
@@ -114,7 +123,7 @@ TraceSpec == TraceInit /\ [][TraceNext]_tvars
 TraceInv ==
     /\ st \in {"new", "run", "ok", "fail", "basebad"}
     /\ pos \in 1..Len(text) /\ (st # "new" => ln >= 1)
-    /\ st = "run" => /\ ln = 1 + CountNL(text, pos - 1)    \* SyltLex's text-derived line agrees with counting newlines one by one
+    /\ st = "run" => /\ ln = LineByStarts(text, pos)      \* SyltLex's newline count agrees with counting the line starts up to pos
                      /\ pos >= Rec[k].marker
     /\ st = "ok" => (Rec[k].efile = PathOf(Rec[k].file) /\ Rec[k].eline = ln /\ Rec[k].res = "err")
 
